@@ -157,6 +157,10 @@ var OutsideTree = fsx.Tree{
 	{Path: "ext/dirchain", Kind: "symlink", Target: "d"},
 	{Path: "x/y/z/ext2", Kind: "dir", Mode: 0755},
 	{Path: "x/y/z/ext2/k", Kind: "file", Content: "OUT:ext2-k", Mode: 0644, Sec: 1400000007},
+	// an external directory whose walk fails part-way: two files, then a link to nothing
+	{Path: "x/y/faulty/a.tf", Kind: "file", Content: "OUT:faulty-a", Mode: 0644, Sec: 1400000008},
+	{Path: "x/y/faulty/b.tf", Kind: "file", Content: "OUT:faulty-b", Mode: 0644, Sec: 1400000009},
+	{Path: "x/y/faulty/zz", Kind: "symlink", Target: "missing"},
 }
 
 // NestedOutside adds links inside the external directories (reached only when
@@ -290,11 +294,11 @@ func build(specs []spec, cfg Config) fsx.Tree {
 		case "out-rel-file":
 			n.Target = ups + "../" + []string{"ext/f", "ext/d/g", "x/y/z/ext2/k", "ext/chain", "ext/chain2"}[pick%5]
 		case "out-rel-dir":
-			n.Target = ups + "../" + []string{"ext/d", "ext", "x/y/z/ext2", "ext/dirchain", "ext/d/e"}[pick%5]
+			n.Target = ups + "../" + []string{"ext/d", "ext", "x/y/z/ext2", "ext/dirchain", "ext/d/e", "x/y/faulty"}[pick%6]
 		case "out-abs-file":
 			n.Target = "{R}/" + []string{"ext/f", "ext/d/g", "x/y/z/ext2/k", "ext/chain"}[pick%4]
 		case "out-abs-dir":
-			n.Target = "{R}/" + []string{"ext/d", "x/y/z/ext2", "ext/dirchain"}[pick%3]
+			n.Target = "{R}/" + []string{"ext/d", "x/y/z/ext2", "ext/dirchain", "x/y/faulty"}[pick%4]
 		case "sibling-prefix":
 			n.Target = []string{ups + "../src-evil/secret", "{R}/src-evil/secret", ups + "../src-evil", "{R}/src-evil"}[pick%4]
 		case "in-abs":
